@@ -47,9 +47,37 @@ class Refuse(Exception):
     pass
 
 
-COQTY = {'Z': 'Z', 'Q': 'Q', 'B': 'bool', 'S': 'string', 'OQ': 'option Q', 'OZ': 'option Z', 'LS': 'list string',
+def fn_type(t):
+    """[loop ties C15/C05] a function-typed parameter 'F:<arg>,<arg>,<kw>=<arg>><ret>' (e.g. 'F:LQ>Q', 'F:LQ,initial=Q>Q'): a
+    PURE Python callable the code calls with exactly this argument pattern (positional arguments, then the named keyword
+    arguments); its value is a Gallina function of the argument types.  Returns ([(keyword or None, type)], result type)."""
+    body, ret = t[2:].rsplit('>', 1)
+    args = []
+    for a in body.split(','):
+        kw, _, ty = a.rpartition('=')
+        if not kw and any(k for k, _ in args):
+            raise Refuse('function type %s: a positional slot after a keyword slot' % t)
+        args.append((kw or None, ty))
+    return args, ret
+
+
+class _CoqTypes(dict):
+    def __missing__(self, t):
+        if isinstance(t, str) and t.startswith('F:'):
+            args, ret = fn_type(t)
+            return '(' + ' -> '.join([self[a] for _, a in args] + [self[ret]]) + ')'
+        if isinstance(t, str) and t.startswith('S|'):
+            # [loop ties C15] 'S|<T>': a parameter that is EITHER a str OR a value of type T (T not a string type): the sum
+            # string + T; read only through `if isinstance(x, str):`, which narrows it on both sides (see block())
+            return '(string + %s)%%type' % self[t[2:]]
+        raise KeyError(t)
+
+
+COQTY = _CoqTypes({'Z': 'Z', 'Q': 'Q', 'B': 'bool', 'S': 'string', 'OQ': 'option Q', 'OZ': 'option Z', 'LS': 'list string',
          'LZ': 'list Z',         # [loop ties C06] LZ: a 1-d integer array / list of ints, as a value
-         'EXC': 'bool'}          # [loop ties C15] EXC: NOT a Python value -- whether the statement guarded by a `try` raises the
+         'LQ': 'list Q',         # [loop ties C15/C05] LQ: a 1-d float array / Series / list of numbers, as a value (opaque: only
+                                 # passed on to function-typed parameters, see fn_type)
+         'EXC': 'bool'})         # [loop ties C15] EXC: NOT a Python value -- whether the statement guarded by a `try` raises the
                                  # exception its handler catches (spec key `tries`, see try_stmt)
 
 
@@ -165,12 +193,28 @@ class FnTranslator:
         if isinstance(n, ast.Name):
             if n.id not in env:
                 raise Refuse('%s: unknown name %s' % (self.rel, n.id))
+            if env[n.id][1].startswith('D:'):
+                raise Refuse('%s: the dict %s is only read by `key in d` and `d[key]`' % (self.rel, n.id))
             return env[n.id]
         if isinstance(n, ast.Attribute) and isinstance(n.value, ast.Name):
             key = '%s.%s' % (n.value.id, n.attr)
             if key in env:
                 return env[key]
             raise Refuse('%s: unknown attribute %s' % (self.rel, key))
+        if isinstance(n, ast.Subscript) and isinstance(n.value, ast.Name) and env.get(n.value.id, ('', ''))[1].startswith('D:'):
+            # [loop ties C15] d[k] on a dict display local with literal string keys: the value under the key equal to k;
+            # a missing key raises KeyError -- an error path outside the translation (recorded)
+            items, dty = env[n.value.id]
+            k = self.expr(n.slice, env)
+            if k[1] != 'S':
+                raise Refuse('%s: dict subscript by type %s' % (self.rel, k[1]))
+            g = '%s not in %s   (KeyError at %s)' % (ast.unparse(n.slice), n.value.id, ast.unparse(n))
+            if g not in self.guards:
+                self.guards.append(g)
+            term = items[-1][1]
+            for key, val in reversed(items[:-1]):
+                term = '(if String.eqb %s %s then %s else %s)' % (k[0], slit(key), val, term)
+            return (term, dty[2:])
         if isinstance(n, ast.Subscript):
             r = self.int_list_subscript(n, env)           # [loop ties C06] x[0], x[-1], x[1:], x[:-1], np.r_[...] on LZ
             if r is not None:
@@ -272,6 +316,12 @@ class FnTranslator:
                 return (t if isinstance(op, ast.Is) else '(negb %s)' % t, 'B')
             if isinstance(op, (ast.In, ast.NotIn)):
                 a = self.expr(n.left, env)
+                if isinstance(rhs, ast.Name) and env.get(rhs.id, ('', ''))[1].startswith('D:'):
+                    # [loop ties C15] membership in a dict display local (see dict_local): its literal string keys
+                    if a[1] != 'S':
+                        raise Refuse('%s: `in` a dict with string keys on type %s' % (self.rel, a[1]))
+                    t = '(mem_string %s [%s])' % (a[0], '; '.join(slit(k) for k, _ in env[rhs.id][0]))
+                    return (t if isinstance(op, ast.In) else '(negb %s)' % t, 'B')
                 if not isinstance(rhs, (ast.List, ast.Tuple, ast.Set)):
                     raise Refuse('`in` only against a literal sequence')
                 items = [self.expr(e, env) for e in rhs.elts]
@@ -445,6 +495,23 @@ class FnTranslator:
 
     def call(self, n, env):
         f = n.func
+        try:
+            fkey = ast.unparse(f)
+        except Exception:
+            fkey = None
+        if fkey is not None and fkey in env and env[fkey][1].startswith('F:'):
+            # [loop ties C15/C05] a call of a function-typed parameter (see fn_type): positional arguments fill the positional
+            # slots in order, keyword arguments the named slots; every declared slot must be given, nothing else
+            slots, rty = fn_type(env[fkey][1])
+            pos = [ty for kw, ty in slots if kw is None]
+            kws = {kw: ty for kw, ty in slots if kw is not None}
+            if len(n.args) != len(pos) or any(isinstance(a, ast.Starred) for a in n.args) \
+                    or sorted(k.arg or '**' for k in n.keywords) != sorted(kws):
+                raise Refuse('%s: %s is called with other arguments than its declared type %s' % (self.rel, fkey, env[fkey][1]))
+            given = {k.arg: k.value for k in n.keywords}
+            vals = [self.coerce(self.expr(a, env), ty) for a, ty in zip(n.args, pos)]
+            vals += [self.coerce(self.expr(given[kw], env), ty) for kw, ty in slots if kw is not None]
+            return ('(%s %s)' % (env[fkey][0], ' '.join(vals)), rty)
         if isinstance(f, ast.Name) and f.id == 'yield_extend__' and not n.keywords:
             x = self.expr(n.args[0], env)
             if x[1] != 'Y':
@@ -793,6 +860,20 @@ class FnTranslator:
         for s in stmts:
             if isinstance(s, ast.If):
                 s = ast.If(test=s.test, body=self.desugar(s.body), orelse=self.desugar(s.orelse))
+                if not s.body and not s.orelse:
+                    # [loop ties C15] an `if` that held nothing but log lines (`if verbose: logging.info(...)`): it has no
+                    # effect when its test has none -- names, attributes, constants, not / and / or, comparisons,
+                    # `x.any()` / `x.all()` / `len(x)`; any other test is refused
+                    for x in ast.walk(s.test):
+                        ok = isinstance(x, (ast.Name, ast.Attribute, ast.Constant, ast.BoolOp, ast.UnaryOp, ast.Compare,
+                                            ast.boolop, ast.unaryop, ast.cmpop, ast.expr_context)) or (
+                            isinstance(x, ast.Call) and not x.keywords and (
+                                (isinstance(x.func, ast.Attribute) and x.func.attr in ('any', 'all') and not x.args)
+                                or (isinstance(x.func, ast.Name) and x.func.id == 'len' and len(x.args) == 1)))
+                        if not ok:
+                            raise Refuse('%s: an if that holds only log lines, with a test that may have effects: %s'
+                                         % (self.rel, ast.unparse(s.test)))
+                    continue
                 out.append(s)
                 continue
             if isinstance(s, ast.Expr) and isinstance(s.value, ast.Call) and ast.unparse(s.value.func).startswith('logging.'):
@@ -968,6 +1049,30 @@ class FnTranslator:
                     raise Refuse('%s: a %d-tuple is expected as the result' % (self.rel, len(ret)))
                 return '(' + ', '.join(self.coerce(self.expr(e, env), t) for e, t in zip(s.value.elts, ret)) + ')'
             return self.coerce(self.expr(s.value, env), ret)
+        if isinstance(s, ast.Assign) and len(s.targets) == 1 and isinstance(s.targets[0], ast.Name) and isinstance(s.value, ast.Dict):
+            env2 = dict(env)
+            env2[s.targets[0].id] = self.dict_local(s.targets[0].id, s.value, env)       # [loop ties C15]
+            return self.block(rest, env2, ret)
+        if isinstance(s, ast.If) and isinstance(s.test, ast.Call) and isinstance(s.test.func, ast.Name) \
+                and s.test.func.id == 'isinstance' and len(s.test.args) == 2 and not s.test.keywords \
+                and isinstance(s.test.args[0], ast.Name) and isinstance(s.test.args[1], ast.Name) and s.test.args[1].id == 'str' \
+                and env.get(s.test.args[0].id, ('', ''))[1].startswith('S|'):
+            # [loop ties C15] `if isinstance(x, str): A else: B` on a parameter x of union type 'S|T': x is a str exactly on
+            # the inl side; each side sees x narrowed (a string / a T) and is followed by the continuation
+            name = s.test.args[0].id
+            a, b = self.new(name), self.new(name)
+            env_s, env_t = dict(env), dict(env)
+            env_s[name] = (a, 'S')
+            env_t[name] = (b, env[name][1][2:])
+            th = self.block(list(s.body) + rest, env_s, ret)
+            el = self.block(list(s.orelse) + rest, env_t, ret)
+            return '(match %s with\n   | inl %s => %s\n   | inr %s => %s end)' % (env[name][0], a, th, b, el)
+        if isinstance(s, ast.If) and len(s.orelse) == 1 and isinstance(s.orelse[0], ast.Raise) \
+                and not any(isinstance(x, ast.Raise) for y in s.body for x in ast.walk(y)):
+            # [loop ties C15] `if c: A else: raise ...` -- the error path is outside the translated function (recorded, like
+            # `if not c: raise`); A and the rest are translated
+            self.guards.append('not (%s)' % ast.unparse(s.test))
+            return self.block(list(s.body) + rest, env, ret)
         if isinstance(s, ast.Assign):
             key, vnode = self.norm_assign(s, env) if len(s.targets) == 1 else (None, None)
             if key is None:
@@ -1124,6 +1229,39 @@ class FnTranslator:
         if isinstance(s, ast.Try):
             return self.try_stmt(s, rest, env, ret)                # [loop ties C15]
         raise Refuse('%s: unsupported statement %s' % (self.rel, type(s).__name__))
+
+    def dict_local(self, name, d, env):
+        """[loop ties C15] `name = {"k1": v1, ..., "kn": vn}`: a dict display with distinct literal string keys and values of one
+        type, bound to a local that is never stored into, re-bound or handed on: in the whole function the name occurs only
+        as this assignment's target, as the right side of `in` / `not in`, as the subscripted value of a load `name[key]`,
+        or inside a `raise` statement (an error path).  It is then a constant table: (list of (key, value term), 'D:'+type)."""
+        keys = []
+        for k in d.keys:
+            if not (isinstance(k, ast.Constant) and isinstance(k.value, str)) or k.value in keys:
+                raise Refuse('%s: dict display %s with a key that is not a distinct string literal' % (self.rel, name))
+            keys.append(k.value)
+        if not keys:
+            raise Refuse('%s: empty dict display %s' % (self.rel, name))
+        vals = [self.expr(v, env) for v in d.values]
+        if len({v[1] for v in vals}) != 1 or vals[0][1].startswith('D:'):
+            raise Refuse('%s: dict display %s with values of types %s' % (self.rel, name, sorted({v[1] for v in vals})))
+        fnode = getattr(self, 'cur_fnode', None)
+        if fnode is None:
+            raise Refuse('%s: dict display outside a function' % self.rel)
+        def visit(node, parent, in_raise):
+            in_raise = in_raise or isinstance(node, ast.Raise)
+            if isinstance(node, ast.Name) and node.id == name and not in_raise:
+                ok = (isinstance(node.ctx, ast.Store) and isinstance(parent, ast.Assign) and parent.value is d) \
+                    or (isinstance(node.ctx, ast.Load) and isinstance(parent, ast.Compare) and len(parent.ops) == 1
+                        and isinstance(parent.ops[0], (ast.In, ast.NotIn)) and parent.comparators[0] is node) \
+                    or (isinstance(node.ctx, ast.Load) and isinstance(parent, ast.Subscript) and parent.value is node
+                        and isinstance(parent.ctx, ast.Load))
+                if not ok:
+                    raise Refuse('%s: the dict %s is used other than by `in` / `[key]` (it could be changed)' % (self.rel, name))
+            for ch in ast.iter_child_nodes(node):
+                visit(ch, node, in_raise)
+        visit(fnode, None, False)
+        return ([(k, v[0]) for k, v in zip(keys, vals)], 'D:' + vals[0][1])
 
     def try_stmt(self, s, rest, env, ret):
         """[loop ties C15] spec key `tries=[dict(first=<prefix of the guarded statement>, raises='ValueError', param=<name>)]`:
@@ -1382,6 +1520,7 @@ class FnTranslator:
 
     # ---- one function
     def function(self, fnode, sp):
+        self.cur_fnode = fnode                     # [loop ties C15] for dict_local's whole-function check
         args = fnode.args
         if args.vararg or args.kwarg or args.kwonlyargs or args.posonlyargs:
             raise Refuse('%s.%s: unsupported parameter kinds' % (self.rel, sp['name']))
